@@ -66,3 +66,8 @@ Definition check (c : howcfg) (k : jcase) : string :=
   ++ b2s (match c_impl k with None => true | _ => false end)
   ++ b2s (match m with None => true | _ => false end) ++ b2s (match s with None => true | _ => false end)
   ++ b2s (t2_ok c k).
+
+(** for the recorded PySpark answers: spec = recorded answer | spec rejects (the other flags are not computed) *)
+Definition check_spec (k : jcase) : string :=
+  let s := sp_run (c_left k) (c_lbase k) (c_steps k) (c_fin k) in
+  "00" ++ b2s (res_eqb s (c_impl k)) ++ "0000" ++ b2s (match s with None => true | _ => false end).
